@@ -243,8 +243,12 @@ Section Model.
     else if (0 <? h_num h) && (N_of_bytes (h_diff h) mod two64 =? 0) then RErr 8   (* Difficulty.Uint64() == 0 *)
     else ROk tt.
 
-  (** The gas-limit bound of verifyCascadingFields with its int64/uint64 casts. *)
+  (** The gas-limit bound of verifyCascadingFields: the distance is taken in uint64 (no wrap: the larger
+      minus the smaller).  Before the repair ff33d14 it went through int64 casts ([gas_bound_bad_old]). *)
   Definition gas_bound_bad (parent_limit limit : N) : bool :=
+    let d := if limit <? parent_limit then parent_limit - limit else limit - parent_limit in
+    (parent_limit / gasLimitBoundDivisor <=? d) || (limit <? minGasLimit).
+  Definition gas_bound_bad_old (parent_limit limit : N) : bool :=
     let d := wrap_i64 (i64_of_u64 parent_limit - i64_of_u64 limit)%Z in
     let d := if (d <? 0)%Z then wrap_i64 (d * -1)%Z else d in
     (parent_limit / gasLimitBoundDivisor <=? u64_of_i64 d) || (limit <? minGasLimit).
